@@ -185,6 +185,15 @@ def install_seams():
 
 
 def _wall_alarm(signum, frame):
+    # fires after `wall_limit` seconds of CPU time and then every half second. A run that is merely slow keeps turning
+    # the event loop: it is left alone (the step cap bounds it). Only code that has not let the loop take a single step
+    # between two ticks is stuck.
+    loop = _active
+    if loop is not None:
+        last = getattr(loop, "_alarm_steps", None)
+        loop._alarm_steps = loop.steps
+        if last is None or last != loop.steps:
+            return
     raise SimLimit("CPU-time limit: the code under simulation keeps the CPU without ever yielding to the event loop")
 
 
